@@ -310,3 +310,23 @@ package contractcourt
 //@   site lookup BreachedHtlcTweaks: assert arg(key) == ret(newResolverID)
 //@   site lookup BreachedSecondLevelHltcTweaks: assert arg(key) == ret(newResolverID)
 //@   site call newResolverID: assert arg(0) == ret(OutPoint)
+//@
+//@ // ---- C13: resolver checkpoints say "handed over" only after the hand-over happened, and a resumed
+//@ // ---- resolver watches the outpoint that exists on chain
+//@ func (h *htlcSuccessResolver) resolveLegacySuccessTx
+//@   props C13
+//@   site call IncubateOutputs: assert !h.outputIncubating && ret(PublishTx) == nil
+//@   site store htlcSuccessResolver.outputIncubating: assert value && called(IncubateOutputs) && ret(IncubateOutputs) == nil
+//@   site call Checkpoint: assert h.outputIncubating && called(IncubateOutputs) && ret(IncubateOutputs) == nil
+//@   site call resolveSuccessTxOutput: assert arg(1).Hash == h.htlcResolution.ClaimOutpoint.Hash && arg(1).Index == h.htlcResolution.ClaimOutpoint.Index
+//@
+//@ func (h *htlcTimeoutResolver) resolveTimeoutTx
+//@   props C13
+//@   // the outpoint to watch is fixed BEFORE the incubating fast-forward: a resumed resolver of a re-signed (zero-fee) timeout
+//@   // tx watches the output of the transaction that actually confirmed
+//@   site call resolveTimeoutTxOutput nth 0: assert h.outputIncubating && retn(watchHtlcSpend, 1) == nil &&
+//@        (ret(isZeroFeeOutput, 0) ==> arg(1).Hash == spenderTxid && arg(1).Index == spend.SpenderInputIndex) &&
+//@        (!ret(isZeroFeeOutput, 0) ==> arg(1).Hash == h.htlcResolution.ClaimOutpoint.Hash && arg(1).Index == h.htlcResolution.ClaimOutpoint.Index)
+//@   site call resolveTimeoutTxOutput nth 1: assert arg(1).Hash == op.Hash && arg(1).Index == op.Index && ret(checkpointStageOne) == nil
+//@   site call checkpointStageOne: assert arg(1) == spenderTxid
+//@   site call isZeroFeeOutput nth 1: assert !h.outputIncubating
